@@ -23,7 +23,7 @@ type (
 	Locker    = sync.Locker
 )
 
-func NewCond(l Locker) *Cond { return sync.NewCond(l) }
+func NewCond(l Locker) *Cond   { return sync.NewCond(l) }
 func OnceFunc(f func()) func() { return sync.OnceFunc(f) }
 
 // ---------------------------------------------------------------- scheduler
